@@ -28,6 +28,169 @@ func ruleSubjectGuardedBy() check.Rule {
 }
 
 // TERMINAL-STORED-BEFORE-BROADCAST + unregister at termination.
+// subjectNextDeferred: subjects whose Next does not notify anybody by definition.
+var subjectNextDeferred = map[string]string{
+	"asyncSubjectImpl": "an AsyncSubject only remembers the value; it is delivered when the subject completes",
+}
+
+// SUBJECT-DELIVERS: what a subject receives reaches its observers; what it stored reaches late subscribers.
+func ruleSubjectDelivers() check.Rule {
+	return check.Rule{
+		Name: "SUBJECT-DELIVERS",
+		Doc:  "for every subject: (a) from NextWithContext / ErrorWithContext / CompleteWithContext, following calls of the subject's own methods, a notification of the same kind is sent to an observer other than the subject itself - each stored observer inside the iteration over the observer set, or the single unicast observer (AsyncSubject's Next is deferred by definition, and its Complete must reach both a Next and a Complete); (b) termination reaches code that empties the observer set; (c) SubscribeWithContext sends the stored Error and the Complete to the new subscriber (one notification of each kind on the subscriber it has just built)",
+		Run: func(c *check.Ctx) {
+			m := c.M
+			p := m.Obj.Ro
+			info := p.TypesInfo
+			for _, tname := range subjectTypes(m) {
+				meths := map[string]*ast.FuncDecl{}
+				for _, fd := range methodsOf(p, tname) {
+					meths[fd.Name.Name] = fd
+				}
+				// element notifications and observer-set deletions reachable from a method through same-type calls
+				type reach struct {
+					kinds   map[int]bool
+					deletes bool
+				}
+				var visit func(fd *ast.FuncDecl, seen map[*ast.FuncDecl]bool, r *reach)
+				visit = func(fd *ast.FuncDecl, seen map[*ast.FuncDecl]bool, r *reach) {
+					if fd == nil || fd.Body == nil || seen[fd] {
+						return
+					}
+					seen[fd] = true
+					rv := recvObj(info, fd)
+					ast.Inspect(fd.Body, func(x ast.Node) bool {
+						switch y := x.(type) {
+						case *ast.AssignStmt:
+							for i, l := range y.Lhs {
+								if sl := fieldSelOf(info, l, rv); sl != nil && (sl.Sel.Name == "observer" || sl.Sel.Name == "observers") && i < len(y.Rhs) {
+									r.deletes = true
+								}
+							}
+						case *ast.CallExpr:
+							sel, ok := ast.Unparen(y.Fun).(*ast.SelectorExpr)
+							if !ok {
+								return true
+							}
+							if id, ok := ast.Unparen(sel.X).(*ast.Ident); ok && objOf(info, id) == types.Object(rv) {
+								visit(meths[sel.Sel.Name], seen, r)
+								return true
+							}
+							if sel.Sel.Name == "Delete" || sel.Sel.Name == "Clear" {
+								if fs := fieldSelOf(info, sel.X, rv); fs != nil && fs.Sel.Name == "observers" {
+									r.deletes = true
+								}
+							}
+							if name, isObs := m.Obj.ObserverMethods[model.Callee(info, y)]; isObs && notifKind(name) >= 0 {
+								r.kinds[notifKind(name)] = true
+							}
+						}
+						return true
+					})
+				}
+				for k, mn := range []string{"NextWithContext", "ErrorWithContext", "CompleteWithContext"} {
+					fd := meths[mn]
+					key := fmt.Sprintf("ro.%s.%s/delivers", tname, mn)
+					if fd == nil {
+						c.Undecided(key, p.Syntax[0].Pos(), "method not found")
+						continue
+					}
+					c.Inc("subject_delivery_paths", 1)
+					r := &reach{kinds: map[int]bool{}}
+					visit(fd, map[*ast.FuncDecl]bool{}, r)
+					if why, deferred := subjectNextDeferred[tname]; deferred && k == 0 {
+						c.OK(key, fd.Pos(), "by definition: %s", why)
+						continue
+					}
+					need := []int{k}
+					if _, deferred := subjectNextDeferred[tname]; deferred && k == 2 {
+						need = []int{0, 2}
+					}
+					missing := ""
+					for _, nk := range need {
+						if !r.kinds[nk] {
+							missing += " " + []string{"Next", "Error", "Complete"}[nk]
+						}
+					}
+					switch {
+					case missing != "":
+						c.Violation(key, fd.Pos(), "%s never reaches a%s notification of an observer: subscribers of the subject do not receive what the subject was sent", mn, missing)
+					case k > 0 && !r.deletes:
+						c.Violation(key, fd.Pos(), "%s never empties the observer set: terminated observers stay registered", mn)
+					default:
+						c.OK(key, fd.Pos(), "reaches the observers with the same kind of notification%s", map[bool]string{true: " and empties the observer set", false: ""}[k > 0])
+					}
+				}
+				// late subscribers
+				if fd := meths["SubscribeWithContext"]; fd != nil && fd.Body != nil {
+					key := fmt.Sprintf("ro.%s.SubscribeWithContext/late-terminal", tname)
+					kinds := map[int]bool{}
+					// regions in which the stored status is known: case KindError / case KindComplete of a switch on the
+					// status field, or the body of `if status == Kind...`
+					regions := map[int][]ast.Node{}
+					ast.Inspect(fd.Body, func(x ast.Node) bool {
+						switch y := x.(type) {
+						case *ast.SwitchStmt:
+							if y.Tag == nil || !isStatusSel(info, y.Tag) {
+								return true
+							}
+							for _, st := range y.Body.List {
+								cc := st.(*ast.CaseClause)
+								for _, e := range cc.List {
+									if v, ok := constVal(info, e); ok && (v == 1 || v == 2) {
+										for _, b := range cc.Body {
+											regions[int(v)] = append(regions[int(v)], b)
+										}
+									}
+								}
+							}
+						case *ast.IfStmt:
+							if be, ok := ast.Unparen(y.Cond).(*ast.BinaryExpr); ok && be.Op == token.EQL && isStatusSel(info, be.X) {
+								if v, ok := constVal(info, be.Y); ok && (v == 1 || v == 2) {
+									regions[int(v)] = append(regions[int(v)], y.Body)
+								}
+							}
+						}
+						return true
+					})
+					inRegion := func(k int, n ast.Node) bool {
+						if len(regions[1]) == 0 && len(regions[2]) == 0 {
+							return true // no recognisable status branch: fall back to "somewhere in the method"
+						}
+						for _, r := range regions[k] {
+							if r.Pos() <= n.Pos() && n.End() <= r.End() {
+								return true
+							}
+						}
+						return false
+					}
+					ast.Inspect(fd.Body, func(x ast.Node) bool {
+						call, ok := x.(*ast.CallExpr)
+						if !ok {
+							return true
+						}
+						if name, isObs := m.Obj.ObserverMethods[model.Callee(info, call)]; isObs && notifKind(name) >= 0 {
+							if sel, ok := ast.Unparen(call.Fun).(*ast.SelectorExpr); ok {
+								if id, ok := ast.Unparen(sel.X).(*ast.Ident); ok {
+									if v, ok := objOf(info, id).(*types.Var); ok && fd.Body.Pos() <= v.Pos() && v.Pos() <= fd.Body.End() && inRegion(notifKind(name), call) {
+										kinds[notifKind(name)] = true
+									}
+								}
+							}
+						}
+						return true
+					})
+					if kinds[1] && kinds[2] {
+						c.OK(key, fd.Pos(), "a subscriber arriving after termination is sent the stored Error or the Complete")
+					} else {
+						c.Violation(key, fd.Pos(), "SubscribeWithContext does not send both terminal kinds to a late subscriber (Error=%v Complete=%v): subscribing to a terminated subject yields a stream that never ends", kinds[1], kinds[2])
+					}
+				}
+			}
+		},
+	}
+}
+
 func ruleSubjectTerminal() check.Rule {
 	return check.Rule{
 		Name: "SUBJECT-TERMINAL",
@@ -361,8 +524,27 @@ func ruleUnicastSingle() check.Rule {
 						if s := fieldSelOf(info, l, rv); s != nil && s.Sel.Name == "observer" {
 							c.Inc("unicast_registrations", 1)
 							key := fmt.Sprintf("ro.%s.SubscribeWithContext/single-observer", tname)
-							if guardedBy(fd.Body, as, atom) {
-								c.OK(key, as.Pos(), "the observer is installed only when none is registered")
+							// the refusal branch tells the second subscriber: an `if observer != nil` body with an Error notification
+							refusalErrors := false
+							ast.Inspect(fd.Body, func(y ast.Node) bool {
+								ifs, ok := y.(*ast.IfStmt)
+								if !ok || atom(ifs.Cond) != -1 {
+									return true
+								}
+								ast.Inspect(ifs.Body, func(z ast.Node) bool {
+									if call, ok := z.(*ast.CallExpr); ok {
+										if name, isObs := m.Obj.ObserverMethods[model.Callee(info, call)]; isObs && notifKind(name) == 1 {
+											refusalErrors = true
+										}
+									}
+									return true
+								})
+								return true
+							})
+							if guardedBy(fd.Body, as, atom) && !refusalErrors {
+								c.Violation(key, as.Pos(), "a second subscriber is turned away without an Error notification: its stream never starts and never ends")
+							} else if guardedBy(fd.Body, as, atom) {
+								c.OK(key, as.Pos(), "the observer is installed only when none is registered; a second subscriber receives an Error")
 							} else {
 								c.Violation(key, as.Pos(), "a second subscriber can replace the registered observer: unicast no longer admits one subscriber at a time")
 							}
@@ -526,7 +708,7 @@ func C10() *check.Property {
 		Title:    "Subjects follow their sequential definition and are linearizable",
 		Patterns: CorePatterns,
 		Scope:    []string{ro},
-		Rules:    []check.Rule{ruleSubjectGuardedBy(), ruleSubjectGate(), ruleSubjectTerminal(), ruleReplayBeforeTerminal(), ruleUnicastSingle(), ruleSiblingTable(), ruleSubjectBroadcastLocked(), ruleCallbackReentrancy()},
+		Rules:    []check.Rule{ruleSubjectGuardedBy(), ruleSubjectGate(), ruleSubjectTerminal(), ruleReplayBeforeTerminal(), ruleUnicastSingle(), ruleSiblingTable(), ruleSubjectBroadcastLocked(), ruleCallbackReentrancy(), ruleSubjectDelivers()},
 		Explanation: "Structural clauses only. Linearizability over concurrent histories is NOT decided. What is decided is the locking and ordering discipline that the sequential definition and the linearization argument rest on: all mutable subject state is accessed under one mutex " +
 			"(GUARDED-BY, lock-set data-flow); effects are gated on the open status, the terminal state is stored before the broadcast and observers are dropped at termination; registration happens under the gate and is undone by the subscription's teardown; " +
 			"the backlog is replayed before a stored terminal (REPLAY-BEFORE-TERMINAL); unicast installs its observer only when none is present; broadcasts happen under the mutex; and the four broadcasting siblings agree feature by feature (SIBLING-TABLE).",
